@@ -335,3 +335,61 @@
         kani::cover!(e[0].tile_id > (1u64 << 40));
         std::mem::forget(d);
     }
+
+// @h id=H19.5 prop=C19 tier=quick cap=300 mem=12 unwind=6 bounds="Directory::to_writer / from_reader with compression Unknown on a one-entry directory / a 5-byte image"
+    /// 'unknown' compression is refused by the directory serialiser and parser
+    #[kani::proof]
+    fn h19_5_directory_unknown_compression() {
+        let e = [REntry { tile_id: 1, offset: 0, length: 3, run_length: 1 }];
+        let d = to_dir(&e);
+        let mut out = [0u8; 16];
+        let mut w = FixW::new(&mut out, 0);
+        let r = d.to_writer(&mut w, Compression::Unknown);
+        assert!(r.is_err());
+        std::mem::forget(r);
+        let img = [1u8, 1, 1, 3, 1];
+        let r2 = Directory::from_bytes(&img[..], Compression::Unknown);
+        assert!(r2.is_err());
+        std::mem::forget(r2);
+        assert!(w.pos == 0);
+        kani::cover!(true);
+        kani::cover!(w.writes == 0);
+        std::mem::forget(d);
+    }
+
+// @h id=H15.d-k$k prop=C15 rep="k:0-6" quick="0-6" cap=200 mem=14 unwind=12 uw="FixR=12;FixW=12" bounds="directory of one valid entry (1-byte fields: id < 120, run 1..3, length/offset < 120, all symbolic); reader and writer fail from operation index k = $k on (the fault-free parse has 5 and the fault-free serialisation 6 stream operations: every fail-stop point is an instance)"
+    /// if the stream starts failing while a directory is parsed or serialised the call returns an error: no panic, no success for an incomplete transfer
+    #[kani::proof]
+    fn h15_d_directory_faults_k$k() {
+        let k: u32 = $k;
+        let id: u8 = kani::any();
+        let run: u8 = kani::any();
+        let len: u8 = kani::any();
+        let off: u8 = kani::any();
+        kani::assume(id < 120 && run >= 1 && run <= 3 && len >= 1 && len < 120 && off < 120);
+        // parser over a failing reader
+        let img = [1u8, id, run, len, off + 1];
+        let mut rd = FixR::new(&img, 5);
+        rd.fail_from = k;
+        let r = Directory::from_reader(&mut rd, 5, Compression::None);
+        match &r {
+            Ok(d) => { assert!(!rd.failed); assert!(d.len() == 1 && d[0].tile_id == id as u64 && d[0].offset == off as u64); }
+            Err(_) => assert!(rd.failed),
+        }
+        kani::cover!(r.is_ok() == (k >= 5));
+        std::mem::forget(r);
+        // serialiser over a failing writer
+        let e = [REntry { tile_id: id as u64, offset: off as u64, length: len as u32, run_length: run as u32 }];
+        let d = to_dir(&e);
+        let mut out = [0u8; 8];
+        let mut w = FixW::new(&mut out, 0);
+        w.fail_from = k;
+        let r2 = d.to_writer(&mut w, Compression::None);
+        match &r2 {
+            Ok(()) => { assert!(!w.failed); assert!(w.pos == 5); }
+            Err(_) => assert!(w.failed),
+        }
+        kani::cover!(r2.is_ok() == (k >= 6));
+        std::mem::forget(r2);
+        std::mem::forget(d);
+    }
